@@ -4,7 +4,7 @@ package main
 // Hosted in cmd/arc: the periodic WAL-maintenance tick and the wal-purge shutdown hook are lifted
 // mechanically out of main() by the overlay generator and executed for real, together with the real
 // ArrowBuffer, wal.Writer/Recovery, replay callbacks and shutdown.Coordinator. Every script of bounded
-// length over {write, multi-hour write, storage fails / works again, maintenance tick, clock advance
+// length over {write, multi-hour write, write whose client disconnects (request context cancelled at any point), storage fails / works again, maintenance tick, clock advance
 // past the WAL safe age, WAL rotation, graceful shutdown + restart} is executed under EVERY schedule
 // of main / flush worker / periodic flush / WAL writer threads within a deviation bound, with the WAL
 // enabled and disabled.
@@ -86,7 +86,7 @@ type c07Event struct {
 	kind string // W | W2 | F+ | F- | T | A | R | S
 }
 
-var c07Alphabet = []c07Event{{"write", "W"}, {"write-2-hours", "W2"}, {"storage-fails", "F+"}, {"storage-works", "F-"},
+var c07Alphabet = []c07Event{{"write", "W"}, {"write-2-hours", "W2"}, {"write-client-gone", "WC"}, {"storage-fails", "F+"}, {"storage-works", "F-"},
 	{"maintenance-tick", "T"}, {"advance-past-safe-age", "A"}, {"rotate-wal", "R"}, {"shutdown+restart", "S"}}
 
 type c07Spec struct {
@@ -123,7 +123,7 @@ func c07Specs() []c07Spec {
 		if len(cur) > 0 {
 			hasW := false
 			for _, e := range cur {
-				if k := c07Alphabet[e].kind; k == "W" || k == "W2" {
+				if k := c07Alphabet[e].kind; k == "W" || k == "W2" || k == "WC" {
 					hasW = true
 				}
 			}
@@ -224,6 +224,7 @@ func c07Scenarios() []sched.Scenario {
 				cfg := &config.Config{}
 				cfg.WAL.Directory = walDir
 				k := int64(0)
+				var wctx context.Context = context.Background()
 				write := func(times ...int64) {
 					cols := map[string][]interface{}{"time": {}, "v": {}}
 					var rows []hx.Row
@@ -233,7 +234,7 @@ func c07Scenarios() []sched.Scenario {
 						cols["v"] = append(cols["v"], float64(k))
 						rows = append(rows, hx.Row{"time": t, "v": float64(k)})
 					}
-					if err := sys.buf.WriteColumnarDirect(context.Background(), "db", "m", cols); err == nil {
+					if err := sys.buf.WriteColumnarDirect(wctx, "db", "m", cols); err == nil {
 						acked = append(acked, rows...)
 						trace = append(trace, "ack")
 					} else {
@@ -259,6 +260,15 @@ func c07Scenarios() []sched.Scenario {
 						write(c07Base + k + 1)
 					case "W2":
 						write(c07Base+k+1, c07Base+c07Hour+k+2)
+					case "WC":
+						// the client of this request goes away at some point (its request context is cancelled by
+						// another thread, whenever the scheduler lets it): whatever the write answers, rows that
+						// were acknowledged - by this or an earlier request - must not be lost
+						ctx, cancel := context.WithCancel(context.Background())
+						vsched.Go("client-disconnect", func() { vsched.Point("client-disconnect"); cancel() })
+						wctx = ctx
+						write(c07Base + k + 1)
+						wctx = context.Background()
 					case "F+":
 						store.set(true)
 					case "F-":
